@@ -1265,6 +1265,9 @@ func (s *State) evalStringInfixExpression(operator token.Type, left, right objec
 	switch {
 	case operator == token.PLUS && right.Type() == object.STRING:
 		rightVal := right.(object.String).Value
+		// Same memory budget check as for * (in ObjectSize units): s = s + s in a loop would otherwise
+		// grow way past the memory limit.
+		object.MustBeOk((len(leftVal) + len(rightVal)) / object.ObjectSize)
 		return object.String{Value: leftVal + rightVal}
 	case operator == token.ASTERISK && rightIsInt:
 		if rightVal < 0 {
